@@ -7,7 +7,8 @@ from typing import Any, Dict, List, Optional, Tuple
 
 from .. import wire
 from ..explore import Stats, digest, explore_product
-from ..scen import RandPolicy, decoded_trace
+from ..models.responder_model import Svc
+from ..scen import RandPolicy, decoded_trace, make_info, register
 from ..world import HarnessError, World
 
 ID = "C10"
@@ -19,6 +20,7 @@ TECHNIQUE = ("exhaustive enumeration of the history tree (all sequences of <= d 
 TA, TB = "_a._tcp.local.", "_b._tcp.local."
 X, XU, Y, Z = "x._a._tcp.local.", "X._A._tcp.local.", "y._a._tcp.local.", "z._b._tcp.local."
 FLOOR = 1125
+OWN = Svc(TA, "own._a._tcp.local.", "own.local.", 80, b"", [bytes([10, 0, 0, 1])], [])
 T1, T2 = "_p._sub._a._tcp.local.", "_s._sub._a._tcp.local."  # two subtypes whose pointers lead to the same instances
 
 
@@ -123,6 +125,15 @@ def points(tier: str) -> List[Dict[str, Any]]:
                             "events": [(20_000, ("ptr", X, ttl)), (0, ("ptr", Z, ttl))]})
                 pts.append({"delay": delay, "forced": None, "jitter": 0.0, "types": "ab", "companion": order,
                             "events": [(20_000, ("ptr", X, ttl)), (0, ("ptr", Z, ttl)), (900_000, ("ptr", X, ttl))]})
+    # the instance also offers the browsed type (so it takes note of questions it hears), and a neighbour asks for the type half
+    # a second before a refresh is due, listing the very pointer that is about to be refreshed as a known answer: nobody will
+    # answer it to the neighbour, the browser has to ask for itself
+    for delay in (1000, 10_000):
+        for ttl in (4500, 1200):
+            for before in (500, 998, 1500):
+                for step in (0.75, 0.85):
+                    pts.append({"delay": delay, "forced": None, "jitter": 0.0, "types": "a", "peer": {"before": before, "step": step},
+                                "events": [(20_000, ("ptr", X, ttl))]})
     # pointers already cached when the browser is created (younger / older than half their TTL, shortly before it starts)
     for delay in (1000, 10_000):
         for pre in ([(30_000, ("ptr", X, 4500))], [(30_000, ("ptr", X, 1200))], [(1_000, ("ptr", X, 4500))],
@@ -170,6 +181,22 @@ def run_point(p: Dict[str, Any], verbose: bool = False) -> Tuple[Optional[Dict[s
         # pointers the instance learned *before* the browser existed (another browser's traffic, a browser that was
         # cancelled and created again): they are replayed to the new browser from the cache and need refreshing too
         pre = sorted([tuple(e) for e in p.get("pre", [])], key=lambda e: -e[0])
+        own_log: List[Tuple[float, int]] = []
+        if p.get("peer"):
+            from zeroconf import RecordUpdateListener
+
+            class OwnSeen(RecordUpdateListener):
+                def async_update_records(self, zc_: Any, now: float, records: list) -> None:
+                    for u in records:
+                        if u.new.type == 12 and u.new.name.lower() == TA and u.new.alias.lower() == OWN.name:
+                            own_log.append((now, u.new.ttl))
+
+                def async_update_records_complete(self) -> None:
+                    pass
+
+            zc.async_add_listener(OwnSeen(), None)
+            register(w, host, make_info(OWN))
+            w.advance(2000)
         base = w.now_ms
         t_start = base + (pre[0][0] if pre else 0)
         br = None
@@ -213,6 +240,12 @@ def run_point(p: Dict[str, Any], verbose: bool = False) -> Tuple[Optional[Dict[s
                     iv = {"type": tname, "alias": inst.lower(), "created": now, "ttl": eff, "end": None, "why": None}
                     intervals.append(iv)
                     live[key] = iv
+        if p.get("peer") and intervals:
+            iv0 = intervals[0]
+            t_due = iv0["created"] + p["peer"]["step"] * iv0["ttl"] * 1000
+            ka = [("PTR", TA, 1, iv0["ttl"], iv0["alias"]), ("PTR", TA, 1, 4500, OWN.name)]
+            w.loop.call_at((t_due - p["peer"]["before"]) / 1000, w.net.inject, host,
+                           wire.query([("Q", TA, 12, 1)], answers=ka, id_=0x7E), ("10.0.0.60", 5353))
         # run until everything has expired and been purged
         horizon = max([iv["created"] + iv["ttl"] * 1000 for iv in intervals] + [w.now_ms]) + 25_000 + delay
         horizon = max(horizon, t_start + 20_000 + 2 * delay)
@@ -220,11 +253,21 @@ def run_point(p: Dict[str, Any], verbose: bool = False) -> Tuple[Optional[Dict[s
         for iv in intervals:
             if iv["end"] is None:
                 iv["end"], iv["why"] = iv["created"] + iv["ttl"] * 1000, "expired"
+        # the instance's own service (scenarios with a neighbour): its pointer is learned from the looped-back announcements and
+        # refreshed whenever the instance answers its own browser; those intervals come from what the record manager reported
+        prev_own: Optional[Dict[str, Any]] = None
+        for t_seen, ttl_seen in own_log:
+            if prev_own is not None:
+                prev_own["end"], prev_own["why"] = t_seen, "refreshed"
+            prev_own = {"type": TA, "alias": OWN.name, "created": t_seen, "ttl": max(ttl_seen, FLOOR), "end": None, "why": None}
+            intervals.append(prev_own)
+        if prev_own is not None:
+            prev_own["end"], prev_own["why"] = min(prev_own["created"] + prev_own["ttl"] * 1000, horizon), "open"
         # ---- the query trace of the browser
         queries: List[Tuple[float, Any]] = []
         for d in decoded_trace(w, host.name):
-            if not d.is_response and d.msg.questions:
-                queries.append((d.t_ms, d))
+            if not d.is_response and d.msg.questions and not d.msg.authorities and d.t_ms >= t_start:
+                queries.append((d.t_ms, d))  # (probe queries of the scenarios that register a service are not the browser's)
         instants: List[float] = sorted({t for t, _ in queries})
         # (a) start-up schedule
         first_lo, first_hi = t_start + 20, t_start + 120
@@ -275,7 +318,7 @@ def run_point(p: Dict[str, Any], verbose: bool = False) -> Tuple[Optional[Dict[s
                 lo, hi = window(iv, k)
                 if lo <= startup_end + delay:
                     continue  # start-up queries already ask for the type
-                if hi + delay > min(iv["end"], expiry):
+                if hi + delay > min(iv["end"], expiry) or hi + delay > horizon:
                     continue  # refreshed/withdrawn before the window closed, or the window does not precede expiry
                 if not asked_between(iv["type"], lo - delay, hi):
                     problems.append(
